@@ -2,17 +2,17 @@ import IrVerif.Props.C08
 open IrVerif.AtomicSave
 #print axioms C08_crash
 #print axioms C08_exception
+#print axioms C08_exception_multi
+#print axioms C08_crash_writer
 #print axioms C08_new_is_image
 #print axioms C08_crash_serial
 #print axioms C08_exception_serial
+#print axioms C08_post_samefile
 #print axioms C08_invalidate_only_if
 #print axioms C08_invalidate_iff
-#print axioms C08_overwritten_spec
+#print axioms C08_destination_resolved
 #print axioms C08_sharded_no_touch
-#print axioms C08_cleanup_gap
 #print axioms C08_unload_crash
 #print axioms C08_unload_fs_frame
-#print axioms C08_small_loaded_first
-#print axioms C08_invalidated_spec
-#print axioms C08_invalidated_sub
-#print axioms C08_post_samefile
+#print axioms C08_unload_exception
+#print axioms C08_unload_exception_multi
